@@ -194,19 +194,21 @@ Qed.
 Lemma G_init alloc oldest init t0 : G oldest (init_sys (fst (pbl_new alloc oldest init)) t0) g0.
 Proof. split; [apply init_sinv3|]. intros [|] st H; cbn in H; discriminate. Qed.
 
-(** a multi-step relation with the ghost, every event satisfying [P] *)
-Inductive gpath (cfg : config) (P : event -> Prop) : sys -> gsys -> sys -> gsys -> Prop :=
+(** a multi-step relation with the ghost, every (state, event) satisfying [P] *)
+Inductive gpath (cfg : config) (P : sys -> event -> Prop) : sys -> gsys -> sys -> gsys -> Prop :=
 | gp_nil s x : gpath cfg P s x s x
-| gp_cons s x e s1 s' x' : P e -> step cfg s e = Some (Ok s1) -> gpath cfg P s1 (gstep s e s1 x) s' x' ->
+| gp_cons s x e s1 s' x' : P s e -> step cfg s e = Some (Ok s1) -> gpath cfg P s1 (gstep s e s1 x) s' x' ->
     gpath cfg P s x s' x'.
 
 Lemma gpath_trans cfg P s x s1 x1 s2 x2 : gpath cfg P s x s1 x1 -> gpath cfg P s1 x1 s2 x2 -> gpath cfg P s x s2 x2.
 Proof. induction 1; intros H2; [exact H2|]. econstructor; eauto. Qed.
 
-Lemma gpath_one cfg (P : event -> Prop) s x e s1 : P e -> step cfg s e = Some (Ok s1) -> gpath cfg P s x s1 (gstep s e s1 x).
+Lemma gpath_one cfg (P : sys -> event -> Prop) s x e s1 : P s e -> step cfg s e = Some (Ok s1) ->
+  gpath cfg P s x s1 (gstep s e s1 x).
 Proof. intros. econstructor; eauto. constructor. Qed.
 
-Lemma gpath_weaken cfg (P Q : event -> Prop) s x s' x' : (forall e, P e -> Q e) -> gpath cfg P s x s' x' -> gpath cfg Q s x s' x'.
+Lemma gpath_weaken cfg (P Q : sys -> event -> Prop) s x s' x' : (forall s e, P s e -> Q s e) ->
+  gpath cfg P s x s' x' -> gpath cfg Q s x s' x'.
 Proof. intros HPQ. induction 1; [constructor|]. econstructor; eauto. Qed.
 
 Lemma gpath_grun cfg P s x s' x' : gpath cfg P s x s' x' -> exists tr, grun cfg s x tr = Some (Ok (s', x')).
@@ -232,6 +234,31 @@ Qed.
 
 Lemma G_gpath o cfg P s x s' x' : G o s x -> gpath cfg P s x s' x' -> G o s' x'.
 Proof. intros Hg Hp. induction Hp; [exact Hg|]. apply IHHp. eapply G_step; eauto. Qed.
+
+(** steps that complete no state write: the list of completed writes is unchanged *)
+Definition nowr (s : sys) (e : event) : Prop :=
+  forall t a st, e = EStep t a -> wpc_of t s = Some (WWriting st) -> a_ok a = false.
+
+Lemma gstep_writes_same s e s' x : nowr s e -> gs_writes (gstep s e s' x) = gs_writes x.
+Proof.
+  intros Hn. destruct e as [alloc| |index size|k blk seed|d| |t a]; cbn [gstep]; try reflexivity.
+  - destruct (blocks _); reflexivity.
+  - destruct (nth_error _ _) as [[[[|abs] sz]|]|]; try reflexivity.
+    destruct (put_finalize _ _ _ _ _) as [[p' [off| | |]]|]; try reflexivity.
+    destruct (mk_ack _ _ _ _); reflexivity.
+  - assert (Hw : forall w, wpc_of t s = Some w -> gs_writes (gw_step t w a s s' x) = gs_writes x).
+    { intros w Hw. unfold gw_step. destruct w as [| |st| |]; try reflexivity.
+      - destruct t; reflexivity.
+      - rewrite (Hn t a st eq_refl Hw). destruct t; reflexivity. }
+    destruct t; cbn [wpc_of] in Hw.
+    + destruct (s_r s); try reflexivity. apply Hw. reflexivity.
+    + destruct (s_p s) as [| | | |keep|keep final|keep final|keep final dl|keep w|]; try reflexivity.
+      * destruct (negb keep && negb final); reflexivity.
+      * apply Hw. reflexivity.
+Qed.
+
+Lemma gpath_writes_same cfg s x s' x' : gpath cfg nowr s x s' x' -> gs_writes x' = gs_writes x.
+Proof. induction 1 as [|s x e s1 s' x' Hn Hs Hp IH]; [reflexivity|]. rewrite IH. apply gstep_writes_same. exact Hn. Qed.
 
 (** closedForWriting is never reset; the put loop never leaves PExit *)
 Lemma step_closed_mono cfg s e s' : step cfg s e = Some (Ok s') ->
